@@ -670,3 +670,138 @@ Section Block.
     pose proof (dterm_le_term inc out (el s) z (reachable_Inv inc out _ (lreachable_el _ _ _ Hr))). lia.
   Qed.
 End Block.
+
+Lemma seq_ok_none_last P B l0 y : (forall X, In X l0 -> ~ P X) -> seq_ok P B (l0 ++ [y]).
+Proof.
+  intros H. induction l0 as [|X r IH]; cbn.
+  - split; [intros _ Y []|exact I].
+  - split; [intros HX; exfalso; apply (H X); [left; reflexivity|exact HX]|].
+    apply IH. intros Y HY. apply H. right. exact HY.
+Qed.
+
+Lemma seq_ok_none P B l : (forall X, In X l -> ~ P X) -> seq_ok P B l.
+Proof.
+  intros H. induction l as [|X r IH]; cbn; [exact I|].
+  split; [intros HX; exfalso; apply (H X); [left; reflexivity|exact HX]|].
+  apply IH. intros Y HY. apply H. right. exact HY.
+Qed.
+
+Lemma all_or {A} (P : A -> Prop) (B : Prop) (l : list A) :
+  (forall z, {P z} + {~ P z}) -> (forall z, In z l -> P z -> B) -> (forall z, In z l -> ~ P z) \/ B.
+Proof.
+  intros D H. induction l as [|x r IH]; [left; intros z []|].
+  destruct (D x) as [Hx|Hx]; [right; apply (H x); [left; reflexivity|exact Hx]|].
+  destruct IH as [IH|IH]; [intros z Hz; apply H; right; exact Hz| |right; exact IH].
+  left. intros z [<-|Hz]; [exact Hx|apply IH; exact Hz].
+Qed.
+
+(* ------------------------------------------------------------------ *)
+(** * The safety invariant *)
+
+Section NInv.
+  Variables (inc out : list N).
+  Hypothesis inc_nonempty : inc <> [].
+  Hypothesis Hmulti : no_single_quorum inc out.
+  Notation lrule := (lrule inc out).
+  Notation lreachable := (lreachable inc out).
+  Notation Block := (Block inc out).
+
+  (* a recorded leader's log is non-empty (it starts with the no-op of its term) *)
+  Lemma leader_llog_nonempty s : lreachable s -> forall t c, In c (leaders (el s) t) -> llog s t <> [].
+  Proof.
+    induction 1 as [|s l s' Hr IH Hstep]; [intros t c []|]. intros t c Hin.
+    pose proof (lreachable_LInv inc out inc_nonempty Hmulti s Hr) as HL.
+    pose proof (llog_grows inc out inc_nonempty Hmulti s l s' Hr HL Hstep t) as [suf Hs].
+    assert (Hold : In c (leaders (el s) t) -> llog s' t <> []).
+    { intros Hc. specialize (IH t c Hc). rewrite Hs. destruct (llog s t); [congruence|discriminate]. }
+    destruct (lstep_el _ _ _ _ _ Hstep) as [E|(l0 & -> & Hp)]; [rewrite E in Hin; auto|].
+    destruct (prule_shape _ _ _ _ _ Hp) as (k & p' & Hn & [[Hl _]|(_ & _ & _ & _ & -> & Hl)]).
+    - rewrite Hl in Hin. auto.
+    - rewrite Hl in Hin. destruct (N.eqb_spec t (p_term (nodes (el s) k))) as [->|Hne]; [|auto].
+      destruct (lel_inv _ _ _ _ _ Hstep) as (e' & He & Hel & _ & Hs').
+      destruct (become_leader_inv _ _ _ _ _ He) as (_ & _ & _ & Ee).
+      assert (Et : p_term (nodes e' k) = p_term (nodes (el s) k))
+        by (rewrite Ee; cbn; rewrite N.eqb_refl; reflexivity).
+      rewrite Hs'. cbn. rewrite Et, N.eqb_refl. destruct (l_log (ln s k)); discriminate.
+  Qed.
+
+  Record NInv (s : lst) : Prop := {
+    (* leader completeness, for every own-term index of every leader log *)
+    n_lead : forall T k t, own (llog s) T k -> T < t -> llog s t <> [] ->
+        Agree (llog s) T k (llog s t) \/ Block s T k;
+    (* a node that promised (T, k) only votes for candidates whose log agrees *)
+    n_vote : forall T k q c t, own (llog s) T k -> T < t -> promised s q T k -> Vote (el s) q c t -> c <> 0 ->
+        Agree (llog s) T k (clog s c t) \/ Block s T k;
+    n_created : forall T k q i, own (llog s) T k -> (k <= i)%nat -> In (T, i) (l_acks (ln s q)) ->
+        Agree (llog s) T k (l_log (ln s q)) \/ Block s T k;
+    n_acked : forall T k q, own (llog s) T k -> (k <= acked s q T)%nat ->
+        Agree (llog s) T k (l_dlog (ln s q)) \/ Block s T k;
+    (* once the durable log / an image agrees, everything handed out later does *)
+    n_seq : forall T k q, own (llog s) T k -> seq_ok (Agree (llog s) T k) (Block s T k) (Seq s q)
+  }.
+
+  Lemma NInv_init : NInv linit.
+  Proof.
+    constructor; unfold own; cbn; intros; lia.
+  Qed.
+
+  Lemma promised_log s T k q : NInv s -> own (llog s) T k -> promised s q T k ->
+    Agree (llog s) T k (l_log (ln s q)) \/ Block s T k.
+  Proof.
+    intros HN Ho [HP|(i & Hi & HP)]; [|eapply n_created; eassumption].
+    destruct (n_acked s HN T k q Ho HP) as [Ha|HB]; [|right; exact HB].
+    eapply seq_ok_head_last; [apply (n_seq s HN T k q Ho)|exact Ha].
+  Qed.
+  (* steps that leave the leader logs alone: it suffices to account for what is new *)
+  Lemma NInv_transfer s s' :
+    NInv s -> llog s' = llog s ->
+    (forall T k, Block s T k -> Block s' T k) ->
+    (forall T k q c t, own (llog s) T k -> T < t -> promised s' q T k -> Vote (el s') q c t -> c <> 0 ->
+        (promised s q T k /\ Vote (el s) q c t /\ clog s' c t = clog s c t) \/
+        Agree (llog s) T k (clog s' c t) \/ Block s T k) ->
+    (forall T k q i, own (llog s) T k -> (k <= i)%nat -> In (T, i) (l_acks (ln s' q)) ->
+        (In (T, i) (l_acks (ln s q)) /\ l_log (ln s' q) = l_log (ln s q)) \/
+        Agree (llog s) T k (l_log (ln s' q)) \/ Block s T k) ->
+    (forall T k q, own (llog s) T k -> (k <= acked s' q T)%nat ->
+        ((k <= acked s q T)%nat /\ l_dlog (ln s' q) = l_dlog (ln s q)) \/
+        Agree (llog s) T k (l_dlog (ln s' q)) \/ Block s T k) ->
+    (forall T k q, own (llog s) T k -> seq_ok (Agree (llog s) T k) (Block s T k) (Seq s' q)) ->
+    NInv s'.
+  Proof.
+    intros HN El HB Hv Hc Ha Hs. constructor; rewrite El.
+    - intros T k t Ho Ht Hne. destruct (n_lead s HN T k t Ho Ht Hne) as [H|H]; [left; exact H|right; auto].
+    - intros T k q c t Ho Ht HP HV Hc0.
+      destruct (Hv T k q c t Ho Ht HP HV Hc0) as [(HP0 & HV0 & Ec)|[H|H]]; [|left; exact H|right; auto].
+      rewrite Ec. destruct (n_vote s HN T k q c t Ho Ht HP0 HV0 Hc0) as [H|H]; [left; exact H|right; auto].
+    - intros T k q i Ho Hi Hin.
+      destruct (Hc T k q i Ho Hi Hin) as [(Hin0 & El0)|[H|H]]; [|left; exact H|right; auto].
+      rewrite El0. destruct (n_created s HN T k q i Ho Hi Hin0) as [H|H]; [left; exact H|right; auto].
+    - intros T k q Ho Hk.
+      destruct (Ha T k q Ho Hk) as [(Hk0 & Ed)|[H|H]]; [|left; exact H|right; auto].
+      rewrite Ed. destruct (n_acked s HN T k q Ho Hk0) as [H|H]; [left; exact H|right; auto].
+    - intros T k q Ho. apply seq_ok_ext with (P := Agree (llog s) T k) (B := Block s T k).
+      + intros X. split; intros HX; exact HX.
+      + exact (HB T k).
+      + apply Hs. exact Ho.
+  Qed.
+
+  (* adopting a prefix of the current term's leader log keeps agreement *)
+  Lemma adopt_agree s n m T k :
+    NInv s -> EInv s -> own (llog s) T k ->
+    let t := p_term (nodes (el s) n) in
+    (m <= length (llog s t))%nat -> is_prefix (firstn m (llog s t)) (l_log (ln s n)) = false ->
+    Agree (llog s) T k (l_log (ln s n)) -> Agree (llog s) T k (firstn m (llog s t)) \/ Block s T k.
+  Proof.
+    intros HN HE Ho t Hm Hnp Hold.
+    assert (HTt : T <= t).
+    { pose proof (Agree_term_at _ _ _ _ Ho Hold) as Ek. destruct Hold as [Hl _]. destruct Ho as [[Hk1 _] _].
+      destruct (term_at_In (l_log (ln s n)) k) as (e & He & Ee); [lia|].
+      rewrite <- Ek, <- Ee. apply (e_log s HE n e He). }
+    assert (Hsrc : Agree (llog s) T k (llog s t) \/ Block s T k).
+    { destruct (N.eq_dec T t) as [<-|Hne]; [left; apply Agree_self; destruct Ho as [[_ Hk] _]; exact Hk|].
+      apply (n_lead s HN T k t Ho); [lia|]. intros E. rewrite E in Hnp. cbn in Hnp.
+      rewrite firstn_nil in Hnp. cbn in Hnp. discriminate. }
+    destruct Hsrc as [Hsrc|HB]; [left|right; exact HB].
+    exact (Agree_adopt (llog s) T k (l_log (ln s n)) (llog s t) m Hold Hsrc Hnp Hm).
+  Qed.
+End NInv.
